@@ -43,7 +43,7 @@ LEVEL_NOTE = ('Trusted: CPython as the reference semantics, the observation runt
               'programs total/terminating. Out of reach: programs > ~40 statements, non-int data, exception messages.')
 
 _KEEP = []
-EXCL = ("no_try_else", 'no_for_target_rebind', 'no_lambda_capture_across_rebind', 'no_impure_chain_middle')
+EXCL = ('no_for_target_rebind', 'no_lambda_capture_across_rebind', 'no_impure_chain_middle')
 
 
 def HASHSEEDS(tier, seed):
